@@ -1,33 +1,10 @@
 (* Proofs for C19: the printable command line round-trips through the shell model. *)
 From Coq Require Import List NArith Bool Lia.
-Require Import SP.Params SP.Base.Str SP.Lib.Quote SP.Lib.Sh.
+Require Import SP.Params SP.Base.Str SP.Base.StrFacts SP.Lib.Quote SP.Lib.Sh.
 Import ListNotations.
 Open Scope N_scope.
 
 (* ---------- finite sweeps over ASCII, lifted to all of N ---------- *)
-
-Definition nrange (n : nat) : list N := map N.of_nat (seq 0 n).
-
-Lemma in_nrange c n : (N.to_nat c < n)%nat -> In c (nrange n).
-Proof.
-  intros H. unfold nrange. apply in_map_iff. exists (N.to_nat c). split.
-  - apply N2Nat.id.
-  - apply in_seq. lia.
-Qed.
-
-Lemma str_eqb_eq a : forall b, str_eqb a b = true -> a = b.
-Proof.
-  induction a as [|x a IH]; intros [|y b] H; simpl in H; try discriminate; auto.
-  apply andb_true_iff in H. destruct H as [H1 H2]. apply N.eqb_eq in H1. subst. f_equal. auto.
-Qed.
-
-Lemma str_eqb_refl a : str_eqb a a = true.
-Proof. induction a as [|x a IH]; simpl; auto. rewrite N.eqb_refl. exact IH. Qed.
-
-Lemma existsb_eqb_In c l : existsb (N.eqb c) l = true -> In c l.
-Proof.
-  intros H. apply existsb_exists in H. destruct H as [x [Hx He]]. apply N.eqb_eq in He. subst. exact Hx.
-Qed.
 
 (* a character that the lexer, outside quotes, simply appends to the current word *)
 Definition plain (c : N) : bool :=
@@ -160,14 +137,6 @@ Definition tok_arg (w : str) : tok := TWord w (qflag_arg w).
 Definition tok_cmd (w : str) : tok := TWord w (qflag_cmd w).
 Definition toks (argv : list str) : list tok :=
   match argv with [] => [] | c :: args => tok_cmd c :: map tok_arg args end.
-
-Lemma join_cons (sep : str) x l : join sep (x :: l) = x ++ concat (map (app sep) l).
-Proof.
-  revert x. induction l as [|y l IH]; intros x.
-  - cbn. rewrite app_nil_r. reflexivity.
-  - change (join sep (x :: y :: l)) with (x ++ sep ++ join sep (y :: l)).
-    rewrite IH. cbn [map concat]. rewrite <- app_assoc. reflexivity.
-Qed.
 
 Lemma lex_blank_InW r a q ts : lex (32 :: r) (InW a q) ts = lex r Out (TWord (rev a) q :: ts).
 Proof. reflexivity. Qed.
